@@ -102,6 +102,8 @@ def edited_term(term, edit):
         if not p:
             if kind == "const":
                 return ("c", val)
+            if kind == "unary":
+                return (t[0], ("c", val))            # the operand of a one-operand node replaced by a new constant
             return (t[0], t[1], ("c", val))          # relink: replace the right operand by a new constant
         i = p[0] + 1
         return tuple(go(x, p[1:]) if j == i else x for j, x in enumerate(t))
@@ -116,6 +118,8 @@ def apply_edit(tree, edit):
         n = n.left if step == 0 else n.right
     if kind == "const":
         n.value = val
+    elif kind == "unary":
+        n.set_child(ConstantExpression(val))
     else:
         n.set_right(ConstantExpression(val))
 
@@ -240,6 +244,12 @@ def domain(ctx):
             cases.append({"term": ("pow", V("x"), V("y")), "ctx": {"x": a, "y": e}})
             cases.append({"term": ("add", ("pow", C(a), C(e)), C(1)), "ctx": {}})
             cases.append({"term": ("mul", C(3), ("pow", V("x"), C(e))), "ctx": {"x": a}})
+    # bases 0 and +-1 with exponents of any size (the parity of a huge odd exponent is lost in a double): exact all the same
+    for base in (-1, 0, 1):
+        for e in (2 ** 22 + 1, 2 ** 53 + 1, 2 ** 60 + 1, 10 ** 30 + 7, 10 ** 30 + 8, 2 ** 64):
+            cases.append({"term": ("pow", C(base), C(e)), "ctx": {}})
+            cases.append({"term": ("pow", V("x"), V("y")), "ctx": {"x": base, "y": e}})
+            cases.append({"term": ("add", ("pow", V("x"), C(e)), C(2 ** 62)), "ctx": {"x": base}})
     for v in [2 ** 20, 2 ** 31, 2 ** 40, 3 ** 20]:
         cases.append({"term": ("pow", V("x"), C(2)), "ctx": {"x": v}})
         cases.append({"term": ("mul", V("x"), V("x")), "ctx": {"x": v}})
@@ -398,6 +408,14 @@ def domain(ctx):
                 edits.append({"term": (o1, (o2, (o1, C(a), C(b)), C(c)), C(7)), "ctx": cx, "edit": ["const", [0, 0, 1], b + 5]})
                 edits.append({"term": (o1, C(3), (o2, (o1, C(a), C(b)), C(c))), "ctx": cx, "edit": ["relink", [1, 0], c + 1]})
                 edits.append({"term": (o1, (o2, C(a), C(b)), (o2, C(c), C(2))), "ctx": cx, "edit": ["relink", [0], c]})
+    # the operand of a one-operand node (given to its constructor) replaced in place after a first evaluation
+    for u in ("neg", "abs", "fact", "sgn"):
+        for a, b in [(3, 5), (4, 0), (2, 20)]:
+            if u in ("neg", "abs", "sgn"):
+                a, b = -a, -b - 1
+            edits.append({"term": ("add", (u, C(a)), V("x")), "ctx": {"x": 7}, "edit": ["unary", [0], b]})
+            edits.append({"term": (u, C(a)), "ctx": {}, "edit": ["unary", [], b]})
+            edits.append({"term": ("mul", C(2), ("sub", (u, C(a)), C(1))), "ctx": None, "edit": ["unary", [1, 0], b]})
     cases += edits
     rule = ("integer trees over %d operands incl. 2^31..10^20 as literals and bindings through + - * (all pairs, sampled triples in both groupings); powers base x exponent over %s; "
             "factorials of %s; neg/abs/sgn; division and decimals over %d small operands incl. zero divisors and NaN propagation (also behind a zero factor); "
